@@ -485,6 +485,9 @@ def expand(scn):
                 continue
             seen.add(key)
             faults = [{"kind": "raise:" + x, "occ": occ} for x in EXCS]
+            if engine == "sync":
+                # (inside a coroutine PEP 479 turns StopIteration into RuntimeError: Python's business, so sync only)
+                faults.append({"kind": "raise:StopIteration", "occ": occ})
             if kind in ("pre", "post", "inv"):
                 faults += [{"kind": "bool:" + x, "occ": occ} for x in BOOL_EXCS]
                 faults += [{"kind": "repr:" + x, "occ": occ} for x in REPR_EXCS]
